@@ -64,6 +64,7 @@ type instState struct {
 	qunsat    int
 	qunknown  int
 	oblUnsat  int
+	sinks     int // secrecy sinks checked (C20)
 	oblSat    int
 	merges    int
 	solverT   time.Duration
@@ -256,6 +257,7 @@ func (ck *Checker) runPath(st *instState, sol *Solver, prefix []Decision) (newWo
 	st.qunknown += sol.Unknown - k0
 	st.solverT += sol.Time - t0
 	st.oblUnsat += r.oblUnsat
+	st.sinks += r.leakChecks
 	st.oblSat += r.oblSat
 	if len(st.samples) < 4 {
 		st.samples = append(st.samples, r.samples...)
